@@ -343,6 +343,7 @@ def digest_last_piece(ctx, prog):
            not bad and n == 4, "; ".join(bad) or "%d bulk copies" % n, f.loc())
     # single-symbol stores
     rows = {}
+    row_ats = []
     bad = []
     for i, j, s in f.stmts():
         if s["s"] != "assign" or not s["lhs"]["p"]:
@@ -372,11 +373,11 @@ def digest_last_piece(ctx, prog):
                     bad.append("blockhash%s[%s] <- value(%s) without `rolling value != 0`" % (k, idx, x))
                     continue
                 if k == "1" and x == "C0.h_full":
-                    rows.setdefault("bh1 <- L.h_full", []).append(idx)
+                    rows.setdefault("bh1 <- L.h_full", []).append(idx); row_ats.append((idx, ats))
                 elif k == "2" and normal and tr and x == "C1.h_half":
                     rows.setdefault("bh2 (truncated) <- (L+1).h_half", []).append(idx)
                 elif k == "2" and normal and ntr and x == "C1.h_full":
-                    rows.setdefault("bh2 (not truncated) <- (L+1).h_full", []).append(idx)
+                    rows.setdefault("bh2 (not truncated) <- (L+1).h_full", []).append(idx); row_ats.append((idx, ats))
                 elif k == "2" and fall and x == "C0.h_full" and ("Eq", "L", "0") in ats and idx == "0":
                     rows.setdefault("bh2 (no next context, L = 0) <- L.h_full", []).append(idx)
                 elif k == "2" and fall and x == "param:self.0.h_last" and ("Ne", "L", "0") in ats and idx == "0":
@@ -412,6 +413,16 @@ def digest_last_piece(ctx, prog):
             if idx.startswith(FULL1) or idx == "0":
                 continue
             badp.append("%s at [%s]" % (r, idx))
+    # non-truncated long form: the last slot is REPLACED exactly when the counter has reached FULL_SIZE, the piece is APPENDED at the counter
+    # otherwise (the test the other way round overwrites a stored piece of a shorter hash and writes past the end of a full one)
+    for idx, ats in row_ats:
+        cmpf = [a for a in ats if a[0] in ("Eq", "Ne", "Lt", "Ge") and (str(a[2]).endswith("FULL_SIZE=64") or str(a[2]) == "64") and str(a[1]).startswith("local:")]
+        if idx.startswith(FULL1):
+            if not any(a[0] == "Eq" for a in cmpf):
+                badp.append("last slot replaced without `counter == FULL_SIZE`: %s" % cmpf)
+        elif re.match(r"local:\w+_(\d+)$", idx) and cmpf:
+            if not all(a[0] in ("Ne", "Lt") for a in cmpf):
+                badp.append("piece appended at the counter under %s" % cmpf)
     ctx.ob(RS, "finalize: the appended piece is written at the piece counter of its own context (or replaces slot FULL_SIZE-1 / HALF_SIZE-1 when the counter is at capacity)",
            not badp, "; ".join(badp) or "positions %s" % sorted(set(i for v in rows.values() for i in v)), f.loc())
     # what the digest may depend on
